@@ -502,31 +502,67 @@ func caller(c *core.Ctx, wrap *core.Fn, wrapperNeg, wrapperKnown bool) {
 	}
 	newObj, rejObj := objOf(info, as.Lhs[0]), objOf(info, as.Lhs[1])
 	cmdObj, argvObj := objOf(info, call.Args[0]), objOf(info, call.Args[1])
-	// the forwarding send: a composite literal whose Cmd is the command name
-	var fwd *ast.CompositeLit
-	var argsExpr ast.Expr
-	ast.Inspect(fn.Decl.Body, func(m ast.Node) bool {
-		if cl, ok := m.(*ast.CompositeLit); ok {
-			var cmdOK bool
-			var ax ast.Expr
-			for _, el := range cl.Elts {
-				if kv, ok := el.(*ast.KeyValueExpr); ok {
-					if id, ok := kv.Key.(*ast.Ident); ok {
-						if id.Name == "Cmd" && objOf(info, kv.Value) == cmdObj && cmdObj != nil {
-							cmdOK = true
+	// the forwarding site: a composite literal whose Cmd is the command name,
+	// built here or in a same-package helper that receives the command name and
+	// the arguments (`ds.pushCmd(sCmd, data, ...)`)
+	literal := func(body ast.Node, cmd types.Object) (*ast.CompositeLit, ast.Expr) {
+		var lit *ast.CompositeLit
+		var args ast.Expr
+		ast.Inspect(body, func(m ast.Node) bool {
+			if cl, ok := m.(*ast.CompositeLit); ok {
+				var cmdOK bool
+				var ax ast.Expr
+				for _, el := range cl.Elts {
+					if kv, ok := el.(*ast.KeyValueExpr); ok {
+						if id, ok := kv.Key.(*ast.Ident); ok {
+							if id.Name == "Cmd" && objOf(info, kv.Value) == cmd && cmd != nil {
+								cmdOK = true
+							}
+							if id.Name == "Args" {
+								ax = kv.Value
+							}
 						}
-						if id.Name == "Args" {
-							ax = kv.Value
+					}
+				}
+				if cmdOK {
+					lit, args = cl, ax
+				}
+			}
+			return true
+		})
+		return lit, args
+	}
+	var fwd ast.Node
+	var argsExpr ast.Expr
+	if lit, ax := literal(fn.Decl.Body, cmdObj); lit != nil {
+		fwd, argsExpr = lit, ax
+	} else {
+		for _, hc := range core.Calls(fn.Decl.Body, info, func(hc *ast.CallExpr, o types.Object) bool {
+			f, _ := o.(*types.Func)
+			return f != nil && f.Pkg() == fn.Obj.Pkg() && f != wrap.Obj
+		}) {
+			hf := c.FnOf(core.CalleeFunc(info, hc))
+			if hf == nil || hf.Decl.Body == nil {
+				continue
+			}
+			ps := hf.Obj.Type().(*types.Signature).Params()
+			if ps.Len() != len(hc.Args) {
+				continue
+			}
+			for i, a := range hc.Args {
+				if objOf(info, a) != cmdObj || cmdObj == nil {
+					continue
+				}
+				if lit, ax := literal(hf.Decl.Body, ps.At(i)); lit != nil && ax != nil {
+					for j := 0; j < ps.Len(); j++ {
+						if objOf(info, ax) == types.Object(ps.At(j)) {
+							fwd, argsExpr = hc, hc.Args[j]
 						}
 					}
 				}
 			}
-			if cmdOK {
-				fwd, argsExpr = cl, ax
-			}
 		}
-		return true
-	})
+	}
 	if fwd == nil || argsExpr == nil || newObj == nil || rejObj == nil {
 		c.Undecidedf("R4.caller", "parseSourceCommand/forwards-returned-vector", fn.Decl.Pos(), "cannot find the command forwarded with the parsed command name")
 		return
